@@ -19,6 +19,33 @@ def realise : List (Bytes × Nat) → List Nat → List Bytes
     let n := if mode = 0 then 1 else if mode = 1 then min c 1 else c
     List.replicate n k ++ realise r cs.tail
 
+/-- the keywords of the repeatable group an entry of mode 2 opens (the following entries of mode 3), and the pattern behind the group -/
+def groupRest : List (Bytes × Nat) → List Bytes × List (Bytes × Nat)
+  | (k, 3) :: r => let g := groupRest r; (k :: g.1, g.2)
+  | r => ([], r)
+
+/-- **is `kids` what the pattern writes for some parsed statement?**  (the membership test the check evaluates on every child sequence
+    libyang prints): an `always` entry consumes exactly one child with its keyword, an `optional` one at most one, a repeatable group
+    (mode 2 and its mode-3 continuation: the alternatives of one dispatching call such as `yprp_node`) every leading child whose keyword
+    is in the group — i.e. `kids` is a realisation of the pattern up to the order inside a repeatable group. -/
+def matchesPat : (fuel : Nat) → List (Bytes × Nat) → List Bytes → Bool
+  | 0, _, _ => false
+  | _, [], kids => kids.isEmpty
+  | f + 1, (k, mode) :: r, kids =>
+    if mode = 0 then
+      (match kids with
+       | c :: cs => c == k && matchesPat f r cs
+       | [] => false)
+    else if mode = 1 then
+      (match kids with
+       | c :: cs => if c == k then matchesPat f r cs else matchesPat f r kids
+       | [] => matchesPat f r [])
+    else
+      let g := groupRest r
+      matchesPat f g.2 (kids.dropWhile fun c => c == k || g.1.contains c)
+
+def isEmission (pat : List (Bytes × Nat)) (kids : List Bytes) : Bool := matchesPat (pat.length + 1) pat kids
+
 /-- the cardinality rules of `yin_parse_content` on a sequence of child keywords -/
 def cardOk (table : List (Bytes × Bool × Bool)) (kids : List Bytes) : Bool :=
   kids.all (fun k => table.any (fun r => r.1 == k)) &&
